@@ -53,7 +53,11 @@ func (f *Tagbody) Call(s *slip.Scope, args slip.List, depth int) slip.Object {
 		if isTag(args[i]) {
 			continue // a tag is a label and is not evaluated
 		}
-		if gt, _ := slip.EvalArg(ns, args, i, d2).(*GoTo); gt != nil {
+		result := slip.EvalArg(ns, args, i, d2)
+		if rr, _ := result.(*slip.ReturnResult); rr != nil {
+			return rr
+		}
+		if gt, _ := result.(*GoTo); gt != nil {
 			// The tag can be before or after the go. A tag of an enclosing
 			// tagbody is left for that tagbody.
 			target := -1
